@@ -19,8 +19,8 @@ EVENTS = ['add A', 'add B', 'add C', 'remove A', 'remove B', 'remove C']
 # second family: D and E are two service TYPES registered under ONE name ("shared"), S has four message types,
 # P0..P7 are single-message bystanders; X and Y are two names whose request paths for the message `u64` have the same 64-bit
 # std-hash value (the key of a handler used to be that hash: D26)
-TYPES2 = ['D', 'E', 'S', 'G', 'H', 'I', 'J', 'K', 'L', 'X', 'Y', 'Q'] + ['P%d' % i for i in range(8)]      # G: a service whose name contains '<' and '>' (generic type); H: the same generic name with another parameter; I, J: `kv::store` / `kv_store`; K: `gen-M1-` (what a lossy sanitiser could turn G's name into); L: `pair<M1, M2>` (type_name of a two-parameter generic: a comma and a space)
-PAIRS2 = [('D', 'M1'), ('E', 'M2'), ('G', 'M1'), ('H', 'M1'), ('I', 'M1'), ('J', 'M1'), ('K', 'M1'), ('L', 'M1'), ('X', 'U'), ('Y', 'U'), ('Q', 'M1'), ('S', 'M1'), ('S', 'M2'), ('S', 'M3'), ('S', 'M4')] + [('P%d' % i, 'M1') for i in range(8)] + [('A', 'M1'), ('C', 'M2')]
+TYPES2 = ['D', 'E', 'S', 'G', 'H', 'I', 'J', 'K', 'L', 'X', 'Y', 'Q', 'R', 'T', 'V'] + ['P%d' % i for i in range(8)]      # G: a service whose name contains '<' and '>' (generic type); H: the same generic name with another parameter; I, J: `kv::store` / `kv_store`; K: `gen-M1-` (what a lossy sanitiser could turn G's name into); L: `pair<M1, M2>` (type_name of a two-parameter generic: a comma and a space)
+PAIRS2 = [('D', 'M1'), ('E', 'M2'), ('G', 'M1'), ('H', 'M1'), ('I', 'M1'), ('J', 'M1'), ('K', 'M1'), ('L', 'M1'), ('X', 'U'), ('Y', 'U'), ('Q', 'M1'), ('R', 'M1'), ('T', 'M1'), ('V', 'M1'), ('S', 'M1'), ('S', 'M2'), ('S', 'M3'), ('S', 'M4')] + [('P%d' % i, 'M1') for i in range(8)] + [('A', 'M1'), ('C', 'M2')]
 EVENTS2 = ['add %s' % t for t in TYPES2 + ['A', 'C']] + ['remove %s' % t for t in TYPES2 + ['A', 'C']]
 
 
